@@ -6,6 +6,7 @@ environment, another working directory (same absolute argument strings) and ever
 the include directories.  Probe: `setorder` — the iteration orders the seeds actually produced.
 """
 import itertools
+import json
 import os
 
 from vf import core, isa as isamod, gen_isa, gen_prog
@@ -48,10 +49,13 @@ class C15(core.Check):
             'distinct_nontrivial = distinct (program, variation) pairs whose baseline succeeded.')
     rule = rule + ' ' + 'Enumeration keys that differ in letter case only are used side by side.'
     assumptions = ('BESPOKEASM_* environment variables are inputs (click reads them), not noise: never set',
-                   'absolute scratch-directory paths printed by the listing are normalised before comparison')
+                   'absolute scratch-directory paths printed by the listing are normalised before comparison',
+                   'of the interpreter switches, PYTHONOPTIMIZE, PYTHONDEVMODE and PYTHONWARNINGS=error::UserWarning are varied; '
+                   'PYTHONWARNINGS=error for every category is not: it asks the interpreter to end the run at its own deprecation '
+                   'warnings (an unknown escape such as "\\d" in a string raises one), which is a request to behave differently')
     chunk = 2500
     crosscheck_every = {'quick': 200, 'thorough': 200}
-    required_buckets = {b: 3 for b in ['prog:overlapping-vocabulary', 'prog:register-name-beginning-with-another-register', 'prog:command-line-symbol-given-twice', 'var:output-file-already-there', 'prog:tilde-directory', 'prog:configured-zone-name-given-twice', 'prog:general-settings', 'var:hashseed', 'var:env', 'var:cwd', 'var:include-order', 'var:include-duplicate',
+    required_buckets = {b: 3 for b in ['prog:overlapping-vocabulary', 'prog:register-name-beginning-with-another-register', 'prog:command-line-symbol-given-twice', 'var:output-file-already-there', 'var:earlier-run-with-another-definition-at-the-same-path', 'prog:tilde-directory', 'prog:configured-zone-name-given-twice', 'prog:general-settings', 'prog:layout-values-from-labels-of-other-zones', 'var:hashseed', 'var:env', 'var:cwd', 'var:include-order', 'var:include-duplicate',
                                        'var:include-symlink', 'prog:generated-isa', 'prog:multi-file', 'prog:example',
                                        'include-dirs>=3', 'ambiguous-include-name']}
 
@@ -82,7 +86,7 @@ class C15(core.Check):
                                                 'symlinks': {'alias_dir': inc[0].split('/')[0] if '/' not in inc[0] else inc[0]}}))
         return out
 
-    def build_runs(self, files, main, isa_name, dirs, tags, heavy=False, extra_argv=(), stale_image=None):
+    def build_runs(self, files, main, isa_name, dirs, tags, heavy=False, extra_argv=(), stale_image=None, earlier_definition=None):
         runs, labels = [], []
         # decoys: files carrying the names of the included files, with other contents, in the directories that serve as
         # working directory in the cwd variation (they are on no search path, so they must never be picked up)
@@ -102,6 +106,13 @@ class C15(core.Check):
                               ('longer-junk', b'Z' * (len(stale_image) + 40)), ('empty-file', b''), ('first-byte-only', stale_image[:1])):
                 var_list.append(('var:output-file-already-there', {'hashseed': '0', 'inc': [], 'files_b64': {'out.bin': base64.b64encode(old_).decode()},
                                                                   'stale': nm_}))
+        if earlier_definition is not None:
+            # the very same paths were assembled before, with another definition in the configuration file (put back since, with
+            # its old time stamp), in the same temporary directory: what an earlier run saw plays no part in this one
+            var_list.append(('var:earlier-run-with-another-definition-at-the-same-path',
+                             {'hashseed': '0', 'inc': [], 'env': {'TMPDIR': '{SCRATCH}/tmpdir', 'TEMP': '{SCRATCH}/tmpdir', 'TMP': '{SCRATCH}/tmpdir'},
+                              'before': [{'files': {isa_name: earlier_definition}, 'argv': ['compile', '-c', isa_name, main, '-o', 'earlier.bin'],
+                                          'remove_after': ['earlier.bin']}]}))
         for tag, ov in var_list:
             for f in FORMATS:
                 absolute = ov.get('absolute')
@@ -118,8 +129,21 @@ class C15(core.Check):
                     spec['symlinks'] = ov['symlinks']
                 if 'files_b64' in ov:
                     spec['files_b64'] = ov['files_b64']
+                if 'before' in ov:
+                    spec['before'] = ov['before']
+                    spec['dirs'] = spec['dirs'] + ['tmpdir']
                 runs.append(spec)
                 labels.append([tag, f, ov['hashseed']])
+        if stale_image is not None:
+            # the same once more with nothing but the image asked for (no -p): what lies at the output path beforehand plays no part
+            import base64
+            argv0 = ['compile', '-c', isa_name, main, '-o', 'out.bin'] + list(extra_argv)
+            runs.append({'files': files, 'argv': argv0, 'hashseed': '0', 'probes': ['setorder'], 'dirs': ['elsewhere/deeper'], 'cpu_s': 60, 'wall_s': 120})
+            labels.append(['baseline', 'image-only', '0'])
+            for nm_, old_ in (('same-image-plus-tail', stale_image + b'\x01\x02'), ('longer-junk', b'Z' * (len(stale_image) + 40)), ('empty-file', b'')):
+                runs.append({'files': files, 'argv': argv0, 'hashseed': '0', 'probes': ['setorder'], 'dirs': ['elsewhere/deeper'], 'cpu_s': 60, 'wall_s': 120,
+                             'files_b64': {'out.bin': base64.b64encode(old_).decode()}})
+                labels.append(['var:output-file-already-there', 'image-only', '0'])
         return {'runs': runs, 'meta': {'labels': labels}, 'tags': sorted(tags)}
 
     def cases(self, tier, seed):
@@ -241,7 +265,29 @@ class C15(core.Check):
             src_g = 'nop\n.cstr "Hi"\n.byte 1\n.asciiz "there"\n"bare"\n.2byte $1234, after\nafter:\n.4byte $A1B2C3D4\n.cstr ""\n.byte 300, 0 - 1\n.2byte $12345\n.fill 2, $1FF\n'
             for fmt_ in ('json', 'yaml'):
                 fn, text = isamod.render_isa(isa, fmt_)
-                yield self.build_runs({fn: text, 'p.asm': src_g}, 'p.asm', fn, ['.'], {'prog:general-settings'})
+                isa_e = json.loads(json.dumps(isa))
+                isa_e['general']['cstr_terminator'] = 0x7E
+                isa_e['general']['endian'] = 'big' if endian == 'little' else 'little'
+                yield self.build_runs({fn: text, 'p.asm': src_g}, 'p.asm', fn, ['.'], {'prog:general-settings'},
+                                      earlier_definition=isamod.render_isa(isa_e, fmt_)[1])
+        # several zones, each laid out with a count or target worked out from a label of a zone used earlier in the source: the
+        # lines are laid out in source order in every run
+        for k, names in enumerate([('low', 'mid', 'hi', 'io', 'zq'), ('zq', 'io', 'hi', 'mid', 'low'), ('a_z', 'b_z', 'c_z', 'd_z', 'e_z'), ('rom', 'ram', 'vars', 'stack', 'vec')]):
+            zl = [{'name': n_, 'start': 0x100 * (j_ + 1), 'end': 0x100 * (j_ + 1) + 0xFF} for j_, n_ in enumerate(names)]
+            isa = gen_prog.layout_isa(16, zones=zl)
+            n0, n1, n2, n3, n4 = names
+            src_x = (f'.memzone {n0}\nl_start: .byte 1, 2\n.memzone {n1}\n.fill l_start - $FE, $AA\nm_here: .byte 3\n.memzone {n2}\n.zero m_here - $200\n'
+                     f'h_here: .byte 4\n.memzone {n3}\n.fill h_here - $300, 5\ni_here: .byte 6\n.memzone {n4}\n.zerountil $500 + i_here - $400\n'
+                     f'.memzone {n0}\n.fill m_here - $200 + h_here - $300, 7\n.org i_here + 4\n.byte 8\n')
+            fn, text = isamod.render_isa(isa, 'json')
+            yield self.build_runs({fn: text, 'p.asm': src_x}, 'p.asm', fn, ['.'], {'prog:layout-values-from-labels-of-other-zones'})
+            # and the same with two and three zones only (one dependency each)
+            for pair in ((n0, n1), (n1, n0), (n2, n4), (n3, n1, n0)):
+                st_ = {n_: 0x100 * (names.index(n_) + 1) for n_ in pair}
+                src_2 = f'.memzone {pair[0]}\np_first: .byte 1, 2\n.memzone {pair[1]}\n.fill p_first - ${st_[pair[0]] - 2:x}, $AA\np_second: .byte 3\n'
+                if len(pair) == 3:
+                    src_2 += f'.memzone {pair[2]}\n.zero p_second - ${st_[pair[1]]:x}\n.byte 4\n'
+                yield self.build_runs({fn: text, 'p.asm': src_2}, 'p.asm', fn, ['.'], {'prog:layout-values-from-labels-of-other-zones'})
         # a search directory whose name begins with "~" is that directory, whatever HOME says
         for k, incdir in enumerate(['~/lib', '~lib', '~']):
             isa = gen_prog.layout_isa(16)
